@@ -5,6 +5,7 @@
    Everything is read off the invariant of reachable configurations (Deps_inv.reach_inv) through
    the C01/C03/C13 lemmas; the evaluator is executable ([vm_compute]). *)
 From Mage Require Import Base.Strs Model.Deps Proof.Deps_defs Proof.Deps_inv Proof.Exit_facts.
+From Mage Require Import Proof.Deps_invA Proof.Deps_invB.
 From Mage Require Import Proof.Deps_c01 Proof.Deps_c13 Proof.Deps_c03 Proof.Deps_progress.
 From Coq Require Import ZArith Lia Permutation.
 
@@ -136,6 +137,17 @@ Proof. intros b (Hk & _). destruct b; simpl in Hk; tauto. Qed.
 
 Lemma agrees_nil_r : forall a, agrees a RNil -> a = RNil.
 Proof. intros a (Hk & _). destruct a; simpl in Hk; tauto. Qed.
+
+(* the sharper form: equal, or two panics with the same status whose messages are permutations *)
+Definition close (a b : res) : Prop :=
+  a = b \/ exists x m m', a = RPanic x m /\ b = RPanic x m' /\ Permutation m m'.
+
+Lemma close_agrees : forall a b, close a b -> agrees a b.
+Proof.
+  intros a b [E|(x & m & m' & Ea & Eb & Hp)].
+  - subst b. apply agrees_refl.
+  - subst a b. split; [exact I|]. split; [reflexivity|exact Hp].
+Qed.
 
 Lemma Forall2_agrees_status : forall rs rs', Forall2 agrees rs rs' -> map status rs = map status rs'.
 Proof.
@@ -322,7 +334,7 @@ Qed.
 Lemma body_end_res : forall f k r,
   (forall d rd, d < k -> In (BodyEnd d rd) tr -> agrees rd (f d)) ->
   In (BodyEnd k r) tr ->
-  agrees r (body_res f (calls_of p (TBody k)) (own_result p (TBody k))).
+  close r (body_res f (calls_of p (TBody k)) (own_result p (TBody k))).
 Proof.
   intros f k r Hf Hend.
   assert (Hright : forall pc c, nth_error (calls_of p (TBody k)) pc = Some c -> right_on f c).
@@ -330,23 +342,26 @@ Proof.
     destruct (dep_smaller p (TBody k) pc c d Hac Hc Hd) as [Hlt _]. exact Hlt. }
   destruct (body_end_shape k r Hend) as (tk & Htk & [(Hr & Hlen & Hg)|(pc & c & x & m & Hr & Hpc & Hc & Hug & Hpan & Hg)]).
   - subst r. rewrite (body_res_skip f _ (length (calls_of p (TBody k)))).
-    + rewrite skipn_all. apply agrees_refl.
+    + rewrite skipn_all. left. reflexivity.
     + intros i c Hi Hc. apply (past_passes f (TBody k) tk i c (Hright i c Hc) Htk); [lia|exact Hc|].
       intros x m Hpan. exact (Hg i c x m Hc Hpan).
   - subst r. rewrite (body_res_skip f _ pc).
     + rewrite (skipn_nth_cons _ _ _ Hc). simpl.
       destruct (call_panic_res f (TBody k) pc c x m (Hright pc c Hc) Hpan Hc) as (m' & Hres & Hperm).
-      rewrite Hres, Hug. split; [exact I|]. split; [reflexivity|exact Hperm].
+      rewrite Hres, Hug. right. exists x, m, m'. split; [reflexivity|]. split; [reflexivity|exact Hperm].
     + intros i c' Hi Hc'. apply (past_passes f (TBody k) tk i c' (Hright i c' Hc') Htk); [lia|exact Hc'|].
       intros x' m' Hpan'. exact (Hg i c' x' m' Hi Hc' Hpan').
 Qed.
 
-Theorem bigstep_agrees_s : forall k r, In (BodyEnd k r) tr -> agrees r (ev p k).
+Theorem bigstep_close_s : forall k r, In (BodyEnd k r) tr -> close r (ev p k).
 Proof.
   intros k. induction k as [k IH] using lt_wf_ind. intros r Hend.
   rewrite (ev_unfold p k Hac). apply body_end_res; [|exact Hend].
-  intros d rd Hlt Hd. exact (IH d Hlt rd Hd).
+  intros d rd Hlt Hd. apply close_agrees. exact (IH d Hlt rd Hd).
 Qed.
+
+Theorem bigstep_agrees_s : forall k r, In (BodyEnd k r) tr -> agrees r (ev p k).
+Proof. intros k r Hend. apply close_agrees. exact (bigstep_close_s k r Hend). Qed.
 
 Lemma ev_right_on : forall c, right_on (ev p) c.
 Proof. intros c d r _ Hend. exact (bigstep_agrees_s d r Hend). Qed.
@@ -362,3 +377,687 @@ Theorem call_panic_agrees_s : forall t pc c x m,
 Proof. intros t pc c x m. apply call_panic_res. apply ev_right_on. Qed.
 
 End Agree.
+
+(* ---- the statements of Props/Engine_bigstep.v, part 1 ---- *)
+
+Theorem bigstep_agrees : forall p s tr k r,
+  acyclic p -> reach true p s tr -> In (BodyEnd k r) tr ->
+  same_kind r (ev p k) /\ status r = status (ev p k) /\ Permutation (message r) (message (ev p k)).
+Proof. intros p s tr k r Hac R Hend. exact (bigstep_agrees_s p s tr Hac R k r Hend). Qed.
+
+(* nil and error results are reproduced exactly; only the token order of a Fatal message varies *)
+Theorem bigstep_exact_or_permuted_panic : forall p s tr k r,
+  acyclic p -> reach true p s tr -> In (BodyEnd k r) tr ->
+  r = ev p k \/ exists x m m', r = RPanic x m /\ ev p k = RPanic x m' /\ Permutation m m'.
+Proof. intros p s tr k r Hac R Hend. exact (bigstep_close_s p s tr Hac R k r Hend). Qed.
+
+Theorem call_return_agrees : forall p s tr t pc c,
+  acyclic p -> reach true p s tr ->
+  In (CallReturn t pc) tr -> nth_error (calls_of p t) pc = Some c -> call_res (ev p) c = CRet.
+Proof. intros p s tr t pc c Hac R. exact (call_return_agrees_s p s tr Hac R t pc c). Qed.
+
+Theorem call_panic_agrees : forall p s tr t pc c x m,
+  acyclic p -> reach true p s tr ->
+  In (CallPanic t pc x m) tr -> nth_error (calls_of p t) pc = Some c ->
+  exists m', call_res (ev p) c = CPan x m' /\ Permutation m m'.
+Proof. intros p s tr t pc c x m Hac R. exact (call_panic_agrees_s p s tr Hac R t pc c x m). Qed.
+
+(* two arbitrary schedules *)
+Theorem outcome_schedule_independent : forall p s1 tr1 s2 tr2 k r1 r2,
+  acyclic p -> reach true p s1 tr1 -> reach true p s2 tr2 ->
+  In (BodyEnd k r1) tr1 -> In (BodyEnd k r2) tr2 ->
+  same_kind r1 r2 /\ status r1 = status r2 /\ Permutation (message r1) (message r2).
+Proof.
+  intros p s1 tr1 s2 tr2 k r1 r2 Hac R1 R2 H1 H2.
+  apply (agrees_trans r1 (ev p k) r2).
+  - exact (bigstep_agrees_s p s1 tr1 Hac R1 k r1 H1).
+  - apply agrees_sym. exact (bigstep_agrees_s p s2 tr2 Hac R2 k r2 H2).
+Qed.
+
+Theorem success_schedule_independent : forall p s1 tr1 s2 tr2 k r2,
+  acyclic p -> reach true p s1 tr1 -> reach true p s2 tr2 ->
+  In (BodyEnd k RNil) tr1 -> In (BodyEnd k r2) tr2 -> r2 = RNil.
+Proof.
+  intros p s1 tr1 s2 tr2 k r2 Hac R1 R2 H1 H2.
+  destruct (outcome_schedule_independent p s1 tr1 s2 tr2 k RNil r2 Hac R1 R2 H1 H2) as (Hk & _).
+  destruct r2; simpl in Hk; tauto.
+Qed.
+
+(* the same call (of a root or of a body) cannot return under one schedule and panic under another,
+   and two panics carry the same exit status and the same tokens *)
+Theorem call_outcome_schedule_independent : forall p s1 tr1 s2 tr2 t pc c,
+  acyclic p -> reach true p s1 tr1 -> reach true p s2 tr2 -> nth_error (calls_of p t) pc = Some c ->
+  (In (CallReturn t pc) tr1 -> forall x m, ~ In (CallPanic t pc x m) tr2) /\
+  (forall x1 m1 x2 m2, In (CallPanic t pc x1 m1) tr1 -> In (CallPanic t pc x2 m2) tr2 ->
+                       x1 = x2 /\ Permutation m1 m2).
+Proof.
+  intros p s1 tr1 s2 tr2 t pc c Hac R1 R2 Hc. split.
+  - intros Hret x m Hpan.
+    pose proof (call_return_agrees p s1 tr1 t pc c Hac R1 Hret Hc) as E1.
+    destruct (call_panic_agrees p s2 tr2 t pc c x m Hac R2 Hpan Hc) as (m' & E2 & _).
+    rewrite E1 in E2. discriminate E2.
+  - intros x1 m1 x2 m2 H1 H2.
+    destruct (call_panic_agrees p s1 tr1 t pc c x1 m1 Hac R1 H1 Hc) as (m1' & E1 & P1).
+    destruct (call_panic_agrees p s2 tr2 t pc c x2 m2 Hac R2 H2 Hc) as (m2' & E2 & P2).
+    rewrite E1 in E2. injection E2 as Ex Em. subst. split; [reflexivity|].
+    eapply Permutation_trans; [exact P1|apply Permutation_sym; exact P2].
+Qed.
+
+(* ================= 4. which dependencies run ================= *)
+
+(* the members a serial call gets to: up to and including the first that is not nil *)
+Fixpoint ser_prefix (f : key -> res) (ds : list key) : list key :=
+  match ds with
+  | [] => []
+  | d :: rest => if is_nil (f d) then d :: ser_prefix f rest else [d]
+  end.
+
+Definition call_reqs (f : key -> res) (c : call) : list key :=
+  match c_style c with Par => c_deps c | Ser => ser_prefix f (c_deps c) end.
+
+(* the members the calls of a body ask for: an unguarded panic ends the body *)
+Fixpoint body_reqs (f : key -> res) (cs : list call) : list key :=
+  match cs with
+  | [] => []
+  | c :: rest =>
+      call_reqs f c ++
+      match call_res f c with
+      | CRet => body_reqs f rest
+      | CPan _ _ => if c_guarded c then body_reqs f rest else []
+      end
+  end.
+
+(* what task t asks for itself *)
+Definition direct (p : prog) (t : tid) : list key := body_reqs (ev p) (calls_of p t).
+
+Definition root_reqs (p : prog) : list key :=
+  flat_map (fun n => direct p (TRoot n)) (seq 0 (length (roots p))).
+
+Definition memb (k : key) (l : list key) : bool := existsb (Nat.eqb k) l.
+
+(* keys n-1, ..., 0 in turn (a body only names smaller keys): a key that has been asked for asks
+   for its own members *)
+Fixpoint needed_down (p : prog) (n : nat) (acc : list key) : list key :=
+  match n with
+  | O => acc
+  | S n' => needed_down p n' (if memb n' acc then direct p (TBody n') ++ acc else acc)
+  end.
+
+(* the dependencies that run, in increasing order *)
+Definition needed (p : prog) : list key :=
+  filter (fun k => memb k (needed_down p (length (nodes p)) (root_reqs p))) (seq 0 (length (nodes p))).
+
+(* the specification of [needed] *)
+Inductive Needed (p : prog) : key -> Prop :=
+| needed_root n k : In k (direct p (TRoot n)) -> Needed p k
+| needed_body k' k : Needed p k' -> In k (direct p (TBody k')) -> Needed p k.
+
+Lemma is_nil_true : forall r, is_nil r = true -> r = RNil.
+Proof. intros r H. destruct r; [reflexivity|discriminate|discriminate]. Qed.
+
+Lemma memb_In : forall k l, memb k l = true <-> In k l.
+Proof.
+  intros k l. unfold memb. rewrite existsb_exists. split.
+  - intros (x & Hx & E). apply Nat.eqb_eq in E. subst x. exact Hx.
+  - intros H. exists k. split; [exact H|apply Nat.eqb_refl].
+Qed.
+
+Lemma ser_prefix_in : forall f ds k, In k (ser_prefix f ds) <->
+  exists i, nth_error ds i = Some k /\
+            forall i' k', i' < i -> nth_error ds i' = Some k' -> f k' = RNil.
+Proof.
+  intros f ds. induction ds as [|d ds IH]; intros k; simpl.
+  - split; [intros []|]. intros (i & Hi & _). destruct i; discriminate.
+  - split.
+    + intros Hin. destruct (is_nil (f d)) eqn:Hn.
+      * destruct Hin as [E|Hin].
+        -- subst d. exists 0. split; [reflexivity|]. intros i' k' Hlt. lia.
+        -- apply IH in Hin. destruct Hin as (i & Hi & Hprev). exists (S i). split; [exact Hi|].
+           intros i' k' Hlt Hi'. destruct i' as [|i']; simpl in Hi'.
+           ++ inversion Hi'; subst k'. apply is_nil_true. exact Hn.
+           ++ apply (Hprev i' k'); [lia|exact Hi'].
+      * destruct Hin as [E|[]]. subst d. exists 0. split; [reflexivity|]. intros i' k' Hlt. lia.
+    + intros (i & Hi & Hprev). destruct i as [|i]; simpl in Hi.
+      * inversion Hi; subst d. destruct (is_nil (f k)); left; reflexivity.
+      * rewrite (Hprev 0 d) by (first [lia|reflexivity]). simpl. right. apply IH.
+        exists i. split; [exact Hi|]. intros i' k' Hlt Hi'. apply (Hprev (S i') k'); [lia|exact Hi'].
+Qed.
+
+Lemma call_reqs_deps : forall f c k, In k (call_reqs f c) -> In k (c_deps c).
+Proof.
+  intros f c k H. unfold call_reqs in H. destruct (c_style c); [exact H|].
+  apply ser_prefix_in in H. destruct H as (i & Hi & _). exact (nth_error_In _ _ Hi).
+Qed.
+
+Lemma body_reqs_in : forall f cs k, In k (body_reqs f cs) ->
+  exists pc c, nth_error cs pc = Some c /\ In k (call_reqs f c) /\
+               forall i c', i < pc -> nth_error cs i = Some c' -> passes f c'.
+Proof.
+  intros f cs. induction cs as [|c cs IH]; intros k Hin; [destruct Hin|].
+  simpl in Hin. apply in_app_or in Hin. destruct Hin as [Hin|Hin].
+  - exists 0, c. split; [reflexivity|]. split; [exact Hin|]. intros i c' Hlt. lia.
+  - assert (Hc : passes f c /\ In k (body_reqs f cs)).
+    { unfold passes. destruct (call_res f c).
+      - split; [left; reflexivity|exact Hin].
+      - destruct (c_guarded c); [split; [right; reflexivity|exact Hin]|destruct Hin]. }
+    destruct Hc as [Hc Hin'].
+    destruct (IH k Hin') as (pc & c0 & Hpc & Hk & Hprev).
+    exists (S pc), c0. split; [exact Hpc|]. split; [exact Hk|].
+    intros i c' Hlt Hi. destruct i as [|i]; simpl in Hi.
+    + inversion Hi; subst c'. exact Hc.
+    + apply (Hprev i c'); [lia|exact Hi].
+Qed.
+
+Lemma body_reqs_intro : forall f cs pc c k,
+  nth_error cs pc = Some c -> In k (call_reqs f c) ->
+  (forall i c', i < pc -> nth_error cs i = Some c' -> passes f c') -> In k (body_reqs f cs).
+Proof.
+  intros f cs. induction cs as [|c0 cs IH]; intros pc c k Hpc Hk Hprev.
+  - destruct pc; discriminate.
+  - simpl. apply in_or_app. destruct pc as [|pc]; simpl in Hpc.
+    + inversion Hpc; subst c0. left. exact Hk.
+    + right.
+      assert (Hin : In k (body_reqs f cs)).
+      { apply (IH pc c k Hpc Hk). intros i c' Hlt Hi. apply (Hprev (S i) c'); [lia|exact Hi]. }
+      assert (H0 : passes f c0) by (apply (Hprev 0 c0); [lia|reflexivity]).
+      destruct H0 as [H0|H0].
+      * rewrite H0. exact Hin.
+      * destruct (call_res f c0); [exact Hin|]. rewrite H0. exact Hin.
+Qed.
+
+Lemma direct_smaller : forall p t k, acyclic p -> In k (direct p t) ->
+  k < rank p t /\ k < length (nodes p).
+Proof.
+  intros p t k Hac Hin. unfold direct in Hin.
+  destruct (body_reqs_in _ _ _ Hin) as (pc & c & Hc & Hk & _).
+  exact (dep_smaller p t pc c k Hac Hc (call_reqs_deps _ _ _ Hk)).
+Qed.
+
+Lemma Needed_lt : forall p k, acyclic p -> Needed p k -> k < length (nodes p).
+Proof.
+  intros p k Hac H. destruct H as [n k H|k' k _ H]; exact (proj2 (direct_smaller p _ k Hac H)).
+Qed.
+
+Lemma needed_down_spec : forall p, acyclic p -> forall n acc,
+  (forall k, In k acc -> Needed p k) ->
+  (forall m k, In k (direct p (TRoot m)) -> In k acc) ->
+  (forall k' k, n <= k' -> In k' acc -> In k (direct p (TBody k')) -> In k acc) ->
+  forall k, In k (needed_down p n acc) <-> Needed p k.
+Proof.
+  intros p Hac. induction n as [|n IH]; intros acc Hsound Hroot Hclosed k.
+  - simpl. split; [apply Hsound|]. intros HN. induction HN as [m k Hk|k' k HN' IHN Hk].
+    + exact (Hroot m k Hk).
+    + apply (Hclosed k' k); [lia|exact IHN|exact Hk].
+  - simpl. apply IH.
+    + intros k0 Hk0. destruct (memb n acc) eqn:Hm; [|exact (Hsound k0 Hk0)].
+      apply in_app_or in Hk0. destruct Hk0 as [Hk0|Hk0]; [|exact (Hsound k0 Hk0)].
+      apply (needed_body p n k0); [|exact Hk0]. apply Hsound. apply memb_In. exact Hm.
+    + intros m k0 Hk0. pose proof (Hroot m k0 Hk0) as Hin.
+      destruct (memb n acc); [apply in_or_app; right|]; exact Hin.
+    + intros k' k0 Hle Hk' Hk0.
+      assert (Hold : In k' acc).
+      { destruct (memb n acc); [|exact Hk'].
+        apply in_app_or in Hk'. destruct Hk' as [Hk'|Hk']; [|exact Hk'].
+        destruct (direct_smaller p (TBody n) k' Hac Hk') as [Hlt _]. simpl in Hlt. lia. }
+      destruct (Nat.eq_dec k' n) as [E|Hne].
+      * subst k'. apply memb_In in Hold. rewrite Hold. apply in_or_app. left. exact Hk0.
+      * assert (Hin : In k0 acc) by (apply (Hclosed k' k0); [lia|exact Hold|exact Hk0]).
+        destruct (memb n acc); [apply in_or_app; right|]; exact Hin.
+Qed.
+
+Lemma needed_spec : forall p k, acyclic p -> (In k (needed p) <-> Needed p k).
+Proof.
+  intros p k Hac. unfold needed. rewrite filter_In, memb_In, in_seq.
+  assert (Hspec : In k (needed_down p (length (nodes p)) (root_reqs p)) <-> Needed p k).
+  { apply needed_down_spec; [exact Hac| | |].
+    - intros k0 Hk0. unfold root_reqs in Hk0. apply in_flat_map in Hk0.
+      destruct Hk0 as (m & _ & Hk0). exact (needed_root p m k0 Hk0).
+    - intros m k0 Hk0. unfold root_reqs. apply in_flat_map. exists m. split; [|exact Hk0].
+      apply in_seq. split; [lia|]. simpl.
+      destruct (body_reqs_in _ _ _ Hk0) as (pc & c & Hc & _). simpl in Hc.
+      destruct (nth_error (roots p) m) as [[cs cx]|] eqn:E.
+      + apply nth_error_Some. rewrite E. discriminate.
+      + destruct pc; discriminate.
+    - intros k' k0 Hle _ Hk0. exfalso.
+      destruct (body_reqs_in _ _ _ Hk0) as (pc & c & Hc & _). simpl in Hc.
+      rewrite (bodies_overflow p k' Hle) in Hc. destruct pc; discriminate. }
+  rewrite Hspec. split; [intros [_ H]; exact H|].
+  intros H. split; [|exact H]. pose proof (Needed_lt p k Hac H). lia.
+Qed.
+
+(* ---- trace facts ---- *)
+
+Lemma nstart_pos : forall k tr, nstart k tr <> 0 <-> exists cx, In (BodyStart k cx) tr.
+Proof.
+  intros k tr. unfold nstart. split.
+  - intros H. destruct (filter (is_start k) tr) as [|e l] eqn:E; [contradiction H; reflexivity|].
+    assert (Hin : In e (filter (is_start k) tr)) by (rewrite E; left; reflexivity).
+    apply filter_In in Hin. destruct Hin as [Hin He].
+    destruct e as [n|k' c|k' o|t pc|t pc|t pc x m]; simpl in He; try discriminate.
+    apply Nat.eqb_eq in He. subst k'. exists c. exact Hin.
+  - intros (cx & Hin) E.
+    assert (Hf : In (BodyStart k cx) (filter (is_start k) tr)).
+    { apply filter_In. split; [exact Hin|]. simpl. apply Nat.eqb_refl. }
+    destruct (filter (is_start k) tr); [destruct Hf|discriminate E].
+Qed.
+
+Lemma task_persists : forall fixed p s a s' ev t tk,
+  step fixed p s a = Some (s', ev) -> tasks s t = Some tk -> exists tk', tasks s' t = Some tk'.
+Proof.
+  intros fixed p s a s' ev t tk E Ht.
+  destruct (step_shape _ _ _ _ _ _ E) as (t0 & tk0 & tk0' & Ht0 & _ & [Es|(k & cx & _ & Es)]); rewrite Es.
+  - destruct (B_tid_dec t t0) as [Heq|Hne].
+    + subst t0. rewrite updt_eq. eauto.
+    + rewrite updt_neq by exact Hne. eauto.
+  - destruct (B_tid_dec t (TBody k)) as [Heq|Hne].
+    + subst t. rewrite updt_eq. eauto.
+    + rewrite updt_neq by exact Hne. destruct (B_tid_dec t t0) as [Heq0|Hne0].
+      * subst t0. rewrite updt_eq. eauto.
+      * rewrite updt_neq by exact Hne0. eauto.
+Qed.
+
+Lemma root_task_exists : forall fixed p s tr n cs cx,
+  reach fixed p s tr -> nth_error (roots p) n = Some (cs, cx) -> exists tk, tasks s (TRoot n) = Some tk.
+Proof.
+  intros fixed p s tr n cs cx R Hn. induction R as [|s tr a s' ev R IH H].
+  - simpl. rewrite Hn. eauto.
+  - destruct IH as (tk & Htk). exact (task_persists fixed p s a s' ev (TRoot n) tk H Htk).
+Qed.
+
+(* where a body was started: by a goroutine of a call that got to it *)
+Lemma start_reached : forall p s tr k cx,
+  reach true p s tr -> In (BodyStart k cx) tr ->
+  exists t pc c, In (CallEnter t pc) tr /\ nth_error (calls_of p t) pc = Some c /\ reached_by tr c k.
+Proof.
+  intros p s tr k cx R Hin. destruct (in_split _ _ Hin) as (pre & post & Htr).
+  destruct (emitted_at _ _ _ _ _ _ _ R Htr)
+    as (s0 & tr0 & a & s1 & ev & l1 & l2 & post' & R0 & Hstep & Hev & _ & _ & Htr').
+  assert (Hine : In (BodyStart k cx) ev) by (rewrite Hev; apply in_or_app; right; left; reflexivity).
+  destruct a as [t|t j].
+  - exfalso. simpl in Hstep. exact (step_task_no_start _ _ _ _ _ _ _ Hstep Hine).
+  - destruct (tasks s0 t) as [tk|] eqn:Htk.
+    2:{ simpl in Hstep. unfold step_go in Hstep. rewrite Htk in Hstep. discriminate. }
+    destruct (go_start_inv _ _ _ _ _ _ _ _ _ _ Hstep Hine Htk) as (r & st & Hph & Hm).
+    destruct (reach_inv _ _ _ _ R0) as [HA [HB HC]].
+    pose proof (b_round _ _ _ _ HB t tk r st Htk Hph) as HR.
+    destruct (b_rd _ _ _ _ _ _ _ _ HR) as (c & Hc & Hrd & _ & Hent).
+    exists t, (t_pc tk), c. rewrite Htr'. split; [|split; [exact Hc|]].
+    + apply in_or_app. left. apply in_or_app. left. exact Hent.
+    + apply reached_by_mono. apply reached_by_mono.
+      unfold reached_by. destruct (c_style c) eqn:Hs.
+      * eapply B_round_member; [exact Hrd|]. eapply nth_error_In. exact Hm.
+      * exact (order p s0 tr0 t j s1 ev k cx tk c R0 Hstep Hine Htk Hc Hs).
+Qed.
+
+(* ---- the two directions ---- *)
+
+Section Needed.
+Variable p : prog.
+Variable s : cfg.
+Variable tr : list event.
+Hypothesis Hac : acyclic p.
+Hypothesis R : reach true p s tr.
+
+Let IA : InvA p s tr := proj1 (reach_inv true p s tr R).
+Let IC : InvC true p s tr := proj2 (proj2 (reach_inv true p s tr R)).
+
+Lemma started_cell : forall k, (exists cx, In (BodyStart k cx) tr) <-> cells s k <> NotStarted.
+Proof.
+  intros k. rewrite <- nstart_pos. rewrite (a_cnt p s tr IA k).
+  destruct (cells s k); split; intro H; try discriminate; try (exfalso; apply H; reflexivity).
+Qed.
+
+Lemma started_task : forall k, cells s k <> NotStarted -> exists tk, tasks s (TBody k) = Some tk.
+Proof.
+  intros k H. destruct (cells s k) as [| |r] eqn:E; [contradiction H; reflexivity| |].
+  - destruct (a_run p s tr IA k E) as (tk & Htk & _). eauto.
+  - destruct (a_fin p s tr IA k r E) as (tk & Htk & _). eauto.
+Qed.
+
+(* a call that was entered: the calls before it let the big-step body go on *)
+Lemma entered_passes : forall t pc, In (CallEnter t pc) tr ->
+  forall i c, i < pc -> nth_error (calls_of p t) i = Some c -> passes (ev p) c.
+Proof.
+  intros t pc Hent i c Hlt Hc.
+  destruct (a_enter p s tr IA t pc Hent) as (tk & c0 & Htk & _ & Hwhere).
+  apply (past_passes p s tr R (ev p) t tk i c (ev_right_on p s tr Hac R c) Htk); [|exact Hc|].
+  - destruct Hwhere as [H|[H _]]; lia.
+  - intros x m Hpan. destruct (c_guarded c) eqn:Hg; [reflexivity|]. exfalso.
+    destruct (no_dependent_continues p s tr t i x m c R Hpan Hc Hg) as [Hno _].
+    exact (Hno pc Hlt Hent).
+Qed.
+
+Lemma reached_reqs : forall c k, reached_by tr c k -> In k (call_reqs (ev p) c).
+Proof.
+  intros c k H. unfold reached_by in H. unfold call_reqs. destruct (c_style c); [exact H|].
+  destruct H as (i & Hi & Hprev). apply ser_prefix_in. exists i. split; [exact Hi|].
+  intros i' k' Hlt Hi'. apply agrees_nil_l.
+  exact (bigstep_agrees_s p s tr Hac R k' RNil (Hprev i' k' Hlt Hi')).
+Qed.
+
+(* safety, in every reachable configuration: whatever has started is needed *)
+Theorem started_needed_s : forall k cx, In (BodyStart k cx) tr -> Needed p k.
+Proof.
+  assert (H : forall n k, length (nodes p) - k < n -> (exists cx, In (BodyStart k cx) tr) -> Needed p k).
+  { induction n as [|n IH]; intros k Hn (cx & Hin); [lia|].
+    destruct (start_reached p s tr k cx R Hin) as (t & pc & c & Hent & Hc & Hrb).
+    assert (Hdir : In k (direct p t)).
+    { unfold direct. apply (body_reqs_intro (ev p) _ pc c k Hc (reached_reqs c k Hrb)).
+      exact (entered_passes t pc Hent). }
+    destruct t as [m|k'].
+    - exact (needed_root p m k Hdir).
+    - apply (needed_body p k' k); [|exact Hdir].
+      destruct (direct_smaller p (TBody k') k Hac Hdir) as [Hlt _]. simpl in Hlt.
+      destruct (a_enter p s tr IA (TBody k') pc Hent) as (tk & _ & Htk & _).
+      assert (Hk' : k' < length (nodes p)) by exact (body_dom true p s tr k' tk Hac R Htk).
+      apply IH; [lia|]. apply started_cell. intro E.
+      rewrite (a_ns p s tr IA k' E) in Htk. discriminate. }
+  intros k cx Hin. apply (H (S (length (nodes p) - k)) k); [lia|]. exists cx. exact Hin.
+Qed.
+
+Hypothesis Hfin : final s.
+
+(* the calls a finished task entered are those the big-step body gets to *)
+Lemma finished_entered : forall t tk pc c,
+  tasks s t = Some tk -> nth_error (calls_of p t) pc = Some c ->
+  (forall i c', i < pc -> nth_error (calls_of p t) i = Some c' -> passes (ev p) c') ->
+  In (CallEnter t pc) tr.
+Proof.
+  intros t tk pc c Htk Hc Hprev.
+  assert (Hpc : pc < t_pc tk).
+  { destruct (c_fin true p s tr IC t tk Htk (Hfin t tk Htk))
+      as [(Hlen & _)|(pc0 & c0 & x & m & Hpc0 & Hc0 & Hug & Hpan & _)].
+    - assert (pc < length (calls_of p t)) by (apply nth_error_Some; rewrite Hc; discriminate). lia.
+    - destruct (le_lt_dec pc pc0) as [Hle|Hgt]; [lia|]. exfalso.
+      destruct (Hprev pc0 c0 Hgt Hc0) as [Hret|Hg]; [|rewrite Hg in Hug; discriminate].
+      destruct (call_panic_agrees_s p s tr Hac R t pc0 c0 x m Hpan Hc0) as (m' & E & _).
+      rewrite Hret in E. discriminate. }
+  exact (proj1 (c_past true p s tr IC t tk pc c Htk Hpc Hc)).
+Qed.
+
+Lemma reqs_reached : forall t pc c k,
+  In (CallEnter t pc) tr -> nth_error (calls_of p t) pc = Some c ->
+  In k (call_reqs (ev p) c) -> reached_by tr c k.
+Proof.
+  intros t pc c k Hent Hc Hk. unfold call_reqs in Hk. unfold reached_by.
+  destruct (c_style c) eqn:Hs; [exact Hk|].
+  apply ser_prefix_in in Hk. destruct Hk as (i & Hi & Hprev). exists i. split; [exact Hi|].
+  assert (H : forall j, j <= i -> forall i' k', i' < j -> nth_error (c_deps c) i' = Some k' ->
+                                         In (BodyEnd k' RNil) tr).
+  { induction j as [|j IH]; intros Hj i' k' Hlt Hi'; [lia|].
+    destruct (Nat.eq_dec i' j) as [E|Hne]; [|apply (IH ltac:(lia) i' k'); [lia|exact Hi']].
+    subst i'.
+    assert (Hrb : reached_by tr c k').
+    { unfold reached_by. rewrite Hs. exists j. split; [exact Hi'|]. apply IH. lia. }
+    destruct (named_runs p s tr t pc c k' R Hfin Hent Hc Hrb) as [_ Hend].
+    rewrite (a_cnt_end p s tr IA k') in Hend.
+    destruct (cells s k') as [| |r] eqn:Hcell; try discriminate.
+    pose proof (cell_end p s tr R k' r Hcell) as Hin.
+    pose proof (bigstep_agrees_s p s tr Hac R k' r Hin) as Hag.
+    rewrite (Hprev j k') in Hag by (first [lia|exact Hi']).
+    apply agrees_nil_r in Hag. subst r. exact Hin. }
+  exact (H i (le_n i)).
+Qed.
+
+Lemma direct_started : forall t tk k,
+  tasks s t = Some tk -> In k (direct p t) -> nstart k tr = 1 /\ nend k tr = 1.
+Proof.
+  intros t tk k Htk Hin. unfold direct in Hin.
+  destruct (body_reqs_in _ _ _ Hin) as (pc & c & Hc & Hk & Hprev).
+  pose proof (finished_entered t tk pc c Htk Hc Hprev) as Hent.
+  exact (named_runs p s tr t pc c k R Hfin Hent Hc (reqs_reached t pc c k Hent Hc Hk)).
+Qed.
+
+(* liveness, at the end of every maximal run: whatever is needed has run, once and to its end *)
+Theorem needed_started_s : forall k, Needed p k -> nstart k tr = 1 /\ nend k tr = 1.
+Proof.
+  intros k HN. induction HN as [m k Hk|k' k HN' IHN Hk].
+  - destruct (body_reqs_in _ _ _ Hk) as (pc & c & Hc & _). simpl in Hc.
+    destruct (nth_error (roots p) m) as [[cs cx]|] eqn:E; [|destruct pc; discriminate].
+    destruct (root_task_exists true p s tr m cs cx R E) as (tk & Htk).
+    exact (direct_started (TRoot m) tk k Htk Hk).
+  - destruct IHN as [Hst _].
+    assert (Hcell : cells s k' <> NotStarted).
+    { intro E. rewrite (a_cnt p s tr IA k'), E in Hst. discriminate. }
+    destruct (started_task k' Hcell) as (tk & Htk).
+    exact (direct_started (TBody k') tk k Htk Hk).
+Qed.
+
+End Needed.
+
+(* ---- the statements of Props/Engine_bigstep.v, part 2 ---- *)
+
+Theorem only_needed_start : forall p s tr k cx,
+  acyclic p -> reach true p s tr -> In (BodyStart k cx) tr -> In k (needed p).
+Proof.
+  intros p s tr k cx Hac R Hin. apply (needed_spec p k Hac).
+  exact (started_needed_s p s tr Hac R k cx Hin).
+Qed.
+
+Theorem needed_iff_started : forall p s tr k,
+  acyclic p -> reach true p s tr -> final s ->
+  (In k (needed p) <-> exists cx, In (BodyStart k cx) tr).
+Proof.
+  intros p s tr k Hac R Hfin. split.
+  - intros Hin. apply nstart_pos.
+    destruct (needed_started_s p s tr Hac R Hfin k (proj1 (needed_spec p k Hac) Hin)) as [H _].
+    rewrite H. discriminate.
+  - intros (cx & Hin). exact (only_needed_start p s tr k cx Hac R Hin).
+Qed.
+
+(* ... each exactly once, to its end, with the outcome the evaluator gives *)
+Theorem needed_run_once_with_outcome : forall p s tr k,
+  acyclic p -> reach true p s tr -> final s -> In k (needed p) ->
+  nstart k tr = 1 /\ nend k tr = 1 /\
+  exists r, In (BodyEnd k r) tr /\
+            same_kind r (ev p k) /\ status r = status (ev p k) /\ Permutation (message r) (message (ev p k)).
+Proof.
+  intros p s tr k Hac R Hfin Hin.
+  destruct (needed_started_s p s tr Hac R Hfin k (proj1 (needed_spec p k Hac) Hin)) as [Hs He].
+  split; [exact Hs|]. split; [exact He|].
+  destruct (reach_inv _ _ _ _ R) as [HA _].
+  rewrite (a_cnt_end p s tr HA k) in He.
+  destruct (cells s k) as [| |r] eqn:Hcell; try discriminate.
+  exists r. pose proof (cell_end p s tr R k r Hcell) as Hend. split; [exact Hend|].
+  exact (bigstep_agrees p s tr k r Hac R Hend).
+Qed.
+
+(* the same for a schedule run from the start until nothing can move *)
+Theorem maximal_run_starts_needed : forall p acts s tr k,
+  acyclic p -> run true p (init p) acts = Some (s, tr) -> (forall a, step true p s a = None) ->
+  (In k (needed p) <-> exists cx, In (BodyStart k cx) tr).
+Proof.
+  intros p acts s tr k Hac Hrun Hst.
+  pose proof (run_reach true p acts (init p) [] s tr (reach_init true p) Hrun) as R. simpl in R.
+  apply (needed_iff_started p s tr k Hac R).
+  exact (maximal_run_final true p (init p) [] acts s tr Hac (reach_init true p) Hrun Hst).
+Qed.
+
+(* so two maximal runs start the same dependencies *)
+Theorem maximal_runs_start_the_same : forall p acts1 s1 tr1 acts2 s2 tr2 k,
+  acyclic p ->
+  run true p (init p) acts1 = Some (s1, tr1) -> (forall a, step true p s1 a = None) ->
+  run true p (init p) acts2 = Some (s2, tr2) -> (forall a, step true p s2 a = None) ->
+  ((exists cx, In (BodyStart k cx) tr1) <-> (exists cx, In (BodyStart k cx) tr2)).
+Proof.
+  intros p acts1 s1 tr1 acts2 s2 tr2 k Hac H1 St1 H2 St2.
+  rewrite <- (maximal_run_starts_needed p acts1 s1 tr1 k Hac H1 St1).
+  exact (maximal_run_starts_needed p acts2 s2 tr2 k Hac H2 St2).
+Qed.
+
+(* ================= 5. non-vacuity: one program, two schedules ================= *)
+
+Definition mkcall (st : style) (g : bool) (ds : list key) : call :=
+  {| c_style := st; c_ctx := Bg; c_deps := ds; c_guarded := g |}.
+
+(* 0 succeeds; 1 and 2 both depend on 0 and fail with different statuses (an error with status 2, a
+   panic with status 3); 3 succeeds but nobody ever gets to it; 4 = a diamond over 0:
+     - serially [0; 1; 3], recovered: the middle member 1 fails, 3 is not asked;
+     - in parallel [1; 2], not recovered: Fatal(1, both messages) ends the body;
+     - [3]: never reached;
+   5 recovers from the failure of 4 and fails with its own error;
+   the root recovers from 5, then stops at the first member of the serial [2; 4], so its last call
+   ([3]) is never made. *)
+Definition ex_prog : prog :=
+  {| nodes := [ {| b_calls := []; b_result := Ok; b_name := 0 |};
+                {| b_calls := [mkcall Par false [0]]; b_result := Err 2 [7]; b_name := 1 |};
+                {| b_calls := [mkcall Par false [0]]; b_result := PanicErr 3 [8]; b_name := 2 |};
+                {| b_calls := []; b_result := Ok; b_name := 3 |};
+                {| b_calls := [mkcall Ser true [0; 1; 3]; mkcall Par false [1; 2]; mkcall Par false [3]];
+                   b_result := Ok; b_name := 4 |};
+                {| b_calls := [mkcall Par true [4]]; b_result := Err 5 [9]; b_name := 5 |} ];
+     roots := [ ([mkcall Par true [5]; mkcall Ser false [2; 4]; mkcall Par false [3]], CBg) ];
+     verbose := false |}.
+
+Lemma ex_acyclic : acyclic ex_prog.
+Proof. apply acyclicb_sound. vm_compute. reflexivity. Qed.
+
+Lemma ex_ev : map (ev ex_prog) [0; 1; 2; 3; 4; 5] =
+  [RNil; RErr 2 [7]; RPanic 3 [8]; RNil; RPanic 1 [7; 8]; RErr 5 [9]].
+Proof. vm_compute. reflexivity. Qed.
+
+Lemma ex_calls :
+  ev_call ex_prog (TBody 4) 0 = Some (CPan 2 [7]) /\ ev_call ex_prog (TBody 4) 1 = Some (CPan 1 [7; 8]) /\
+  ev_call ex_prog (TBody 5) 0 = Some (CPan 1 [7; 8]) /\
+  ev_call ex_prog (TRoot 0) 0 = Some (CPan 5 [9]) /\ ev_call ex_prog (TRoot 0) 1 = Some (CPan 3 [8]) /\
+  ev_call ex_prog (TBody 1) 0 = Some CRet.
+Proof. vm_compute. repeat split; reflexivity. Qed.
+
+Lemma ex_needed : needed ex_prog = [0; 1; 2; 4; 5].
+Proof. vm_compute. reflexivity. Qed.
+
+(* a generator of maximal schedules: always take the first enabled action of a priority list *)
+Definition enabled (p : prog) (s : cfg) (a : action) : bool :=
+  match step true p s a with Some _ => true | None => false end.
+
+Fixpoint drive (p : prog) (cands : list action) (fuel : nat) (s : cfg) : list action :=
+  match fuel with
+  | O => []
+  | S f => match find (enabled p s) cands with
+           | None => []
+           | Some a => match step true p s a with
+                       | Some (s', _) => a :: drive p cands f s'
+                       | None => []
+                       end
+           end
+  end.
+
+Definition width (p : prog) : nat :=
+  fold_right Nat.max 0 (map (fun c => length (c_deps c))
+    (flat_map (fun b => b_calls b) (nodes p) ++ flat_map (fun r => fst r) (roots p))).
+
+(* roots first, goroutines in spawn order *)
+Definition prio_fwd (p : prog) : list action :=
+  flat_map (fun t => ATask t :: map (AGo t) (seq 0 (width p))) (all_tids p).
+(* deepest body first, goroutines in reverse order *)
+Definition prio_rev (p : prog) : list action :=
+  flat_map (fun t => ATask t :: rev (map (AGo t) (seq 0 (width p))))
+           (map TBody (seq 0 (length (nodes p))) ++ map TRoot (seq 0 (length (roots p)))).
+
+Definition sched_fwd : list action :=
+  [ATask (TRoot 0); ATask (TRoot 0); AGo (TRoot 0) 0;
+   ATask (TBody 5); ATask (TBody 5); AGo (TBody 5) 0;
+   ATask (TBody 4); ATask (TBody 4); AGo (TBody 4) 0;
+   ATask (TBody 0); AGo (TBody 4) 0; AGo (TBody 4) 0;
+   ATask (TBody 4); ATask (TBody 4); AGo (TBody 4) 0;
+   ATask (TBody 1); ATask (TBody 1); AGo (TBody 1) 0;
+   AGo (TBody 1) 0; ATask (TBody 1); ATask (TBody 1);
+   AGo (TBody 4) 0; AGo (TBody 4) 0; ATask (TBody 4);
+   ATask (TBody 4); ATask (TBody 4); ATask (TBody 4);
+   AGo (TBody 4) 0; AGo (TBody 4) 0; AGo (TBody 4) 1;
+   ATask (TBody 2); ATask (TBody 2); AGo (TBody 2) 0;
+   AGo (TBody 2) 0; ATask (TBody 2); ATask (TBody 2);
+   AGo (TBody 4) 1; AGo (TBody 4) 1; ATask (TBody 4);
+   ATask (TBody 4); AGo (TBody 5) 0; AGo (TBody 5) 0;
+   ATask (TBody 5); ATask (TBody 5); AGo (TRoot 0) 0;
+   AGo (TRoot 0) 0; ATask (TRoot 0); ATask (TRoot 0);
+   ATask (TRoot 0); AGo (TRoot 0) 0; AGo (TRoot 0) 0;
+   ATask (TRoot 0); ATask (TRoot 0)].
+
+(* the same up to the parallel call of 4, where the goroutine of member 2 reports before that of 1 *)
+Definition sched_rev : list action :=
+  [ATask (TRoot 0); ATask (TRoot 0); AGo (TRoot 0) 0;
+   ATask (TBody 5); ATask (TBody 5); AGo (TBody 5) 0;
+   ATask (TBody 4); ATask (TBody 4); AGo (TBody 4) 0;
+   ATask (TBody 0); AGo (TBody 4) 0; AGo (TBody 4) 0;
+   ATask (TBody 4); ATask (TBody 4); AGo (TBody 4) 0;
+   ATask (TBody 1); ATask (TBody 1); AGo (TBody 1) 0;
+   AGo (TBody 1) 0; ATask (TBody 1); ATask (TBody 1);
+   AGo (TBody 4) 0; AGo (TBody 4) 0; ATask (TBody 4);
+   ATask (TBody 4); ATask (TBody 4); ATask (TBody 4);
+   AGo (TBody 4) 1; ATask (TBody 2); ATask (TBody 2);
+   AGo (TBody 2) 0; AGo (TBody 2) 0; ATask (TBody 2);
+   ATask (TBody 2); AGo (TBody 4) 1; AGo (TBody 4) 1;
+   AGo (TBody 4) 0; AGo (TBody 4) 0; ATask (TBody 4);
+   ATask (TBody 4); AGo (TBody 5) 0; AGo (TBody 5) 0;
+   ATask (TBody 5); ATask (TBody 5); AGo (TRoot 0) 0;
+   AGo (TRoot 0) 0; ATask (TRoot 0); ATask (TRoot 0);
+   ATask (TRoot 0); AGo (TRoot 0) 0; AGo (TRoot 0) 0;
+   ATask (TRoot 0); ATask (TRoot 0)].
+
+Lemma sched_fwd_driven : drive ex_prog (prio_fwd ex_prog) (bound ex_prog) (init ex_prog) = sched_fwd.
+Proof. vm_compute. reflexivity. Qed.
+
+Lemma sched_rev_driven : drive ex_prog (prio_rev ex_prog) (bound ex_prog) (init ex_prog) = sched_rev.
+Proof. vm_compute. reflexivity. Qed.
+
+Definition ends (tr : list event) : list (key * res) :=
+  flat_map (fun e => match e with BodyEnd k r => [(k, r)] | _ => [] end) tr.
+Definition starts (tr : list event) : list key :=
+  flat_map (fun e => match e with BodyStart k _ => [k] | _ => [] end) tr.
+Definition call_ends (tr : list event) : list (tid * nat * cres) :=
+  flat_map (fun e => match e with
+                     | CallReturn t pc => [(t, pc, CRet)]
+                     | CallPanic t pc x m => [(t, pc, CPan x m)]
+                     | _ => []
+                     end) tr.
+
+Definition end_fwd : cfg * list event :=
+  match run true ex_prog (init ex_prog) sched_fwd with Some x => x | None => (init ex_prog, []) end.
+Definition end_rev : cfg * list event :=
+  match run true ex_prog (init ex_prog) sched_rev with Some x => x | None => (init ex_prog, []) end.
+
+Lemma ex_final : forall s, (s = fst end_fwd \/ s = fst end_rev) -> final s.
+Proof.
+  intros s [E|E]; subst s; intros t tk H;
+    destruct t as [[|[|n]]|[|[|[|[|[|[|k]]]]]]]; vm_compute in H; try discriminate;
+      inversion H; subst; reflexivity.
+Qed.
+
+(* the first schedule: a maximal run; what it starts is [needed ex_prog] (3 does not run), and every
+   body and every call ends exactly as the evaluator says *)
+Lemma ex_fwd_agrees : exists s tr,
+  run true ex_prog (init ex_prog) sched_fwd = Some (s, tr) /\ final s /\
+  starts tr = [5; 4; 0; 1; 2] /\
+  ends tr = map (fun k => (k, ev ex_prog k)) [0; 1; 2; 4; 5] /\
+  Forall (fun e => ev_call ex_prog (fst (fst e)) (snd (fst e)) = Some (snd e)) (call_ends tr).
+Proof.
+  exists (fst end_fwd), (snd end_fwd). split; [vm_compute; reflexivity|].
+  split; [apply ex_final; left; reflexivity|].
+  split; [vm_compute; reflexivity|]. split; [vm_compute; reflexivity|].
+  vm_compute. repeat constructor.
+Qed.
+
+(* the second schedule: the same outcomes, but the Fatal message of 4 (and of the call of 5 that
+   sees it) lists the two failures in the other order: "up to a permutation" cannot be improved *)
+Lemma ex_rev_agrees : exists s tr,
+  run true ex_prog (init ex_prog) sched_rev = Some (s, tr) /\ final s /\
+  starts tr = [5; 4; 0; 1; 2] /\
+  ends tr = [(0, RNil); (1, RErr 2 [7]); (2, RPanic 3 [8]); (4, RPanic 1 [8; 7]); (5, RErr 5 [9])] /\
+  In (CallPanic (TBody 5) 0 1 [8; 7]) tr /\ ev ex_prog 4 = RPanic 1 [7; 8].
+Proof.
+  exists (fst end_rev), (snd end_rev). split; [vm_compute; reflexivity|].
+  split; [apply ex_final; right; reflexivity|].
+  split; [vm_compute; reflexivity|]. split; [vm_compute; reflexivity|].
+  split; [vm_compute; tauto|vm_compute; reflexivity].
+Qed.
+
+Lemma message_order_depends_on_schedule : exists p acts1 s1 tr1 acts2 s2 tr2 k x m1 m2,
+  acyclic p /\ run true p (init p) acts1 = Some (s1, tr1) /\ run true p (init p) acts2 = Some (s2, tr2) /\
+  In (BodyEnd k (RPanic x m1)) tr1 /\ In (BodyEnd k (RPanic x m2)) tr2 /\ m1 <> m2.
+Proof.
+  exists ex_prog, sched_fwd, (fst end_fwd), (snd end_fwd), sched_rev, (fst end_rev), (snd end_rev),
+         4, 1%Z, [7; 8], [8; 7].
+  split; [exact ex_acyclic|]. split; [vm_compute; reflexivity|]. split; [vm_compute; reflexivity|].
+  split; [vm_compute; tauto|]. split; [vm_compute; tauto|]. discriminate.
+Qed.
